@@ -365,7 +365,18 @@ impl LogStore for FileLogStore {
 
         inner.entries.retain(|&index, _| index > cutoff_index.index);
 
+        // Persist the purge boundary: BufferedRaftLog::new() restores last_purged_index/term from
+        // load_purge_boundary() so that entry_term(boundary) is known after a restart.
+        fs::write(self.data_dir.join("purge_boundary.bin"), cutoff_index.encode_to_vec())?;
+
         Ok(())
+    }
+
+    fn load_purge_boundary(&self) -> Result<Option<LogId>, Error> {
+        match fs::read(self.data_dir.join("purge_boundary.bin")) {
+            Ok(bytes) => Ok(LogId::decode(bytes.as_slice()).ok()),
+            Err(_) => Ok(None),
+        }
     }
 
     async fn truncate(
